@@ -1,10 +1,11 @@
 (* C17 - LLCP addressing: binding, discovery and delivery reach the right socket.
    Only statements here; proofs are in Proofs/Addr.v, AddrInv.v, AddrStep.v, AddrThm.v, AddrMain.v.
 
-   [reach ops sd] is the state of controller [sd] after ANY sequence [ops] of
+   [reach blk ops sd] is the state of controller [sd] after ANY sequence [ops] of
    socket/bind/listen/accept/connect/sendto/rawsend/recvfrom/setsockopt/resolve/close calls on the two
    controllers and PDU transfers between them (Model/Addr.v: exec = fold_left step; histories that
-   continue after a crashed call are included).  Abstract table: [bound_set c a] (sockets bound at a),
+   continue after a crashed call are included), for either version [blk] of DataLinkConnection.enqueue
+   (c_enq_blocks: before / after fixes/c07-7; the harness tells the model which one the source is).  Abstract table: [bound_set c a] (sockets bound at a),
    [name_addr c n] (address a service name is bound to). *)
 From Coq Require Import ZArith List Bool.
 From NV Require Import Base.Result Base.Bytes Base.PyPrims Model.Addr Proofs.Addr Proofs.AddrInv Proofs.AddrStep
@@ -14,8 +15,8 @@ Open Scope Z_scope.
 
 (* --- bind_unique: a socket is bound to at most one SAP, once; the table and getsockname agree; an open
        bound socket is in the table; two names never share an address; a named address is in use --- *)
-Theorem C17_bind_unique : forall ops sd,
-  let c := get_side (exec ops) sd in
+Theorem C17_bind_unique : forall blk ops sd,
+  let c := get_side (exec blk ops) sd in
   (forall a b i, In i (bound_set c a) -> In i (bound_set c b) -> a = b) /\
   (forall a, NoDup (bound_set c a)) /\
   (forall a i, In i (bound_set c a) -> exists s, get_sock c i = Some s /\ s_addr s = Some a) /\
@@ -26,17 +27,17 @@ Proof. exact bind_unique_state. Qed.
 Print Assumptions C17_bind_unique.
 
 (* ... in every step of every history an existing socket keeps its address, or gets one that no socket was bound to *)
-Theorem C17_bind_unique_step : forall ops o sd,
-  let c := get_side (exec ops) sd in
-  let c' := get_side (exec (ops ++ [o])) sd in
+Theorem C17_bind_unique_step : forall blk ops o sd,
+  let c := get_side (exec blk ops) sd in
+  let c' := get_side (exec blk (ops ++ [o])) sd in
   forall j sj, get_sock c j = Some sj -> exists sj', get_sock c' j = Some sj' /\
     (s_addr sj' = s_addr sj \/
      (s_addr sj = None /\ exists a, s_addr sj' = Some a /\ 2 <= a < 64 /\ bound_set c a = [])).
 Proof. exact bind_unique_step. Qed.
 Print Assumptions C17_bind_unique_step.
 
-Theorem C17_bind_twice : forall ops sd i s a arg, get_sock (reach ops sd) i = Some s -> s_addr s = Some a ->
-  do_bind (reach ops sd) i arg = (reach ops sd, Err (LlcpError EINVAL)).
+Theorem C17_bind_twice : forall blk ops sd i s a arg, get_sock (reach blk ops sd) i = Some s -> s_addr s = Some a ->
+  do_bind (reach blk ops sd) i arg = (reach blk ops sd, Err (LlcpError EINVAL)).
 Proof. exact bind_twice_all. Qed.
 Print Assumptions C17_bind_twice.
 
@@ -45,58 +46,58 @@ Print Assumptions C17_bind_twice.
        (32..63, or any for a raw access point) else EADDRINUSE, EACCES for 0..31 on ordinary sockets;
        name -> EFAULT if malformed, EADDRINUSE if the name is bound, well-known name -> its fixed address 4 if
        free else EADDRINUSE, other names -> least free address of 16..31 (else EADDRNOTAVAIL, see below) --- *)
-Theorem C17_bind_ranges : forall ops sd i s arg c' r,
-  get_sock (reach ops sd) i = Some s -> s_addr s = None -> do_bind (reach ops sd) i arg = (c', r) ->
-  bind_outcome (reach ops sd) i s arg c' r.
+Theorem C17_bind_ranges : forall blk ops sd i s arg c' r,
+  get_sock (reach blk ops sd) i = Some s -> s_addr s = None -> do_bind (reach blk ops sd) i arg = (c', r) ->
+  bind_outcome (reach blk ops sd) i s arg c' r.
 Proof. exact bind_ranges_all. Qed.
 Print Assumptions C17_bind_ranges.
 
 (* the full statement "a failing bind has errno EADDRINUSE, EACCES, EFAULT or EAGAIN" is false of the code:
    exhaustion of the 16 named addresses raises EADDRNOTAVAIL (tests/test_llcp_llc.py pins that value) *)
 Theorem C17_bind_errno_refuted :
-  exists ops sd i s n, get_sock (reach ops sd) i = Some s /\ s_addr s = None /\ name_valid n = true /\
-    snd (do_bind (reach ops sd) i (BName n)) = Err (LlcpError EADDRNOTAVAIL) /\ ~ documented EADDRNOTAVAIL.
+  exists blk ops sd i s n, get_sock (reach blk ops sd) i = Some s /\ s_addr s = None /\ name_valid n = true /\
+    snd (do_bind (reach blk ops sd) i (BName n)) = Err (LlcpError EADDRNOTAVAIL) /\ ~ documented EADDRNOTAVAIL.
 Proof. exact bind_errno_undocumented. Qed.
 Print Assumptions C17_bind_errno_refuted.
 (* strongest true statement: documented errno for every failing bind except exactly that input class *)
-Theorem C17_bind_errno_partial : forall ops sd i s arg c' e,
-  get_sock (reach ops sd) i = Some s -> s_addr s = None -> do_bind (reach ops sd) i arg = (c', Err e) ->
+Theorem C17_bind_errno_partial : forall blk ops sd i s arg c' e,
+  get_sock (reach blk ops sd) i = Some s -> s_addr s = None -> do_bind (reach blk ops sd) i arg = (c', Err e) ->
   (exists x, e = LlcpError x /\ documented x) \/
-  (exists n, arg = BName n /\ name_valid n = true /\ name_addr (reach ops sd) n = None /\ wks n = None /\
-             none_free (reach ops sd) 16 32 /\ e = LlcpError EADDRNOTAVAIL).
+  (exists n, arg = BName n /\ name_valid n = true /\ name_addr (reach blk ops sd) n = None /\ wks n = None /\
+             none_free (reach blk ops sd) 16 32 /\ e = LlcpError EADDRNOTAVAIL).
 Proof. exact bind_errno_all. Qed.
 Print Assumptions C17_bind_errno_partial.
 
 (* --- close_frees: closing the last socket frees the address and its name, nothing else changes;
        closing another socket keeps both; same when a waiting close() completes; the name can be bound again --- *)
-Theorem C17_close_frees : forall ops sd i s a c' r,
-  get_sock (reach ops sd) i = Some s -> s_addr s = Some a -> s_pend s = PdNone ->
-  bound_set (reach ops sd) a = [i] -> sock_close s <> None -> do_close (reach ops sd) i = (c', r) ->
+Theorem C17_close_frees : forall blk ops sd i s a c' r,
+  get_sock (reach blk ops sd) i = Some s -> s_addr s = Some a -> s_pend s = PdNone ->
+  bound_set (reach blk ops sd) a = [i] -> sock_close s <> None -> do_close (reach blk ops sd) i = (c', r) ->
   r = Ok OUnit /\ bound_set c' a = [] /\ is_free c' a = true /\ (forall n, name_addr c' n <> Some a) /\
-  (forall b, b <> a -> sap_get c' b = sap_get (reach ops sd) b) /\
-  (forall n b, b <> a -> (name_addr c' n = Some b <-> name_addr (reach ops sd) n = Some b)).
+  (forall b, b <> a -> sap_get c' b = sap_get (reach blk ops sd) b) /\
+  (forall n b, b <> a -> (name_addr c' n = Some b <-> name_addr (reach blk ops sd) n = Some b)).
 Proof. exact close_frees_all. Qed.
 Print Assumptions C17_close_frees.
-Theorem C17_close_not_last : forall ops sd i s a c' r l,
-  get_sock (reach ops sd) i = Some s -> s_addr s = Some a -> s_pend s = PdNone ->
-  bound_set (reach ops sd) a = l -> (exists j, j <> i /\ In j l) -> sock_close s <> None ->
-  do_close (reach ops sd) i = (c', r) ->
-  r = Ok OUnit /\ bound_set c' a = remove_id l i /\ bound_set c' a <> [] /\ c_snl c' = c_snl (reach ops sd).
+Theorem C17_close_not_last : forall blk ops sd i s a c' r l,
+  get_sock (reach blk ops sd) i = Some s -> s_addr s = Some a -> s_pend s = PdNone ->
+  bound_set (reach blk ops sd) a = l -> (exists j, j <> i /\ In j l) -> sock_close s <> None ->
+  do_close (reach blk ops sd) i = (c', r) ->
+  r = Ok OUnit /\ bound_set c' a = remove_id l i /\ bound_set c' a <> [] /\ c_snl c' = c_snl (reach blk ops sd).
 Proof. exact close_not_last_all. Qed.
 Print Assumptions C17_close_not_last.
-Theorem C17_close_pending_frees : forall ops sd i s' a,
-  (exists s, get_sock (reach ops sd) i = Some s /\ evolves s s') -> s_addr s' = Some a -> s_recvq s' <> [] ->
-  bound_set (reach ops sd) a = [i] ->
-  let c' := fst (finish_close (reach ops sd) i s') in
+Theorem C17_close_pending_frees : forall blk ops sd i s' a,
+  (exists s, get_sock (reach blk ops sd) i = Some s /\ evolves s s') -> s_addr s' = Some a -> s_recvq s' <> [] ->
+  bound_set (reach blk ops sd) a = [i] ->
+  let c' := fst (finish_close (reach blk ops sd) i s') in
   bound_set c' a = [] /\ is_free c' a = true /\ (forall n, name_addr c' n <> Some a) /\
-  (forall n b, b <> a -> (name_addr c' n = Some b <-> name_addr (reach ops sd) n = Some b)).
+  (forall n b, b <> a -> (name_addr c' n = Some b <-> name_addr (reach blk ops sd) n = Some b)).
 Proof. exact close_pending_all. Qed.
 Print Assumptions C17_close_pending_frees.
-Theorem C17_rebind_after_close : forall ops sd j s n,
-  get_sock (reach ops sd) j = Some s -> s_addr s = None -> name_valid n = true -> wks n = None ->
-  name_addr (reach ops sd) n = None -> (exists a, 16 <= a < 32 /\ bound_set (reach ops sd) a = []) ->
-  exists a, least_free (reach ops sd) 16 32 a /\ snd (do_bind (reach ops sd) j (BName n)) = Ok OUnit /\
-            name_addr (fst (do_bind (reach ops sd) j (BName n))) n = Some a.
+Theorem C17_rebind_after_close : forall blk ops sd j s n,
+  get_sock (reach blk ops sd) j = Some s -> s_addr s = None -> name_valid n = true -> wks n = None ->
+  name_addr (reach blk ops sd) n = None -> (exists a, 16 <= a < 32 /\ bound_set (reach blk ops sd) a = []) ->
+  exists a, least_free (reach blk ops sd) 16 32 a /\ snd (do_bind (reach blk ops sd) j (BName n)) = Ok OUnit /\
+            name_addr (fst (do_bind (reach blk ops sd) j (BName n))) n = Some a.
 Proof. exact rebind_all. Qed.
 Print Assumptions C17_rebind_after_close.
 
@@ -104,24 +105,24 @@ Print Assumptions C17_rebind_after_close.
        under this name or accepted from it; absent name: no socket in the table is bound under it.  Service
        discovery answers that address (0 = absent).  CONNECT by name reaches the listening socket bound under the
        name and no other, or a DM reports absence (AddrMain.connect_by_name_outcome) --- *)
-Theorem C17_name_meaning : forall ops sd n,
-  match name_addr (reach ops sd) n with
+Theorem C17_name_meaning : forall blk ops sd n,
+  match name_addr (reach blk ops sd) n with
   | Some a => (n = name_sdp /\ a = 1) \/
-              (2 <= a < 64 /\ bound_set (reach ops sd) a <> [] /\
-               forall i, In i (bound_set (reach ops sd) a) -> exists s, get_sock (reach ops sd) i = Some s /\ s_addr s = Some a /\
+              (2 <= a < 64 /\ bound_set (reach blk ops sd) a <> [] /\
+               forall i, In i (bound_set (reach blk ops sd) a) -> exists s, get_sock (reach blk ops sd) i = Some s /\ s_addr s = Some a /\
                  (s_bname s = Some n \/ (s_bname s = None /\ nolisten (s_state s))))
-  | None => forall a i s, In i (bound_set (reach ops sd) a) -> get_sock (reach ops sd) i = Some s -> s_bname s <> Some n
+  | None => forall a i s, In i (bound_set (reach blk ops sd) a) -> get_sock (reach blk ops sd) i = Some s -> s_bname s <> Some n
   end.
 Proof. exact name_meaning_all. Qed.
 Print Assumptions C17_name_meaning.
-Theorem C17_resolve_answer : forall ops sd rq rs c' r, dispatch (reach ops sd) (PSnl rq rs) = (c', r) ->
-  sd_sdres c' = sd_sdres (reach ops sd) ++
-                map (fun x => (fst x, match name_addr (reach ops sd) (snd x) with Some a => a | None => 0 end)) rq /\
-  c_sap c' = c_sap (reach ops sd) /\ c_snl c' = c_snl (reach ops sd) /\ c_socks c' = c_socks (reach ops sd).
+Theorem C17_resolve_answer : forall blk ops sd rq rs c' r, dispatch (reach blk ops sd) (PSnl rq rs) = (c', r) ->
+  sd_sdres c' = sd_sdres (reach blk ops sd) ++
+                map (fun x => (fst x, match name_addr (reach blk ops sd) (snd x) with Some a => a | None => 0 end)) rq /\
+  c_sap c' = c_sap (reach blk ops sd) /\ c_snl c' = c_snl (reach blk ops sd) /\ c_socks c' = c_socks (reach blk ops sd).
 Proof. exact sdreq_answer_all. Qed.
 Print Assumptions C17_resolve_answer.
-Theorem C17_connect_by_name : forall ops sd ssap n c' r, dispatch (reach ops sd) (PConnect 1 ssap (Some n)) = (c', r) ->
-  connect_by_name_outcome (reach ops sd) ssap n c' r.
+Theorem C17_connect_by_name : forall blk ops sd ssap n c' r, dispatch (reach blk ops sd) (PConnect 1 ssap (Some n)) = (c', r) ->
+  connect_by_name_outcome (reach blk ops sd) ssap n c' r.
 Proof. exact connect_by_name_all. Qed.
 Print Assumptions C17_connect_by_name.
 
@@ -133,29 +134,29 @@ Print Assumptions C17_connect_by_name.
        datagram waiting in a send queue carries that socket's address as source (C17_datagram_queues).
        PARTIAL: the end-to-end order statement is given as these queue-discipline steps (append at the tail
        unchanged, take from the head unchanged, same PDU across the link), not as one theorem over traces. --- *)
-Theorem C17_datagram_queues : forall ops sd i s p, get_sock (reach ops sd) i = Some s -> s_type s = TLdl ->
+Theorem C17_datagram_queues : forall blk ops sd i s p, get_sock (reach blk ops sd) i = Some s -> s_type s = TLdl ->
   (In p (s_recvq s) -> exists d sa data, p = PUI d sa data /\ s_addr s = Some d) /\
   (In p (s_sendq s) -> exists d data a, p = PUI d a data /\ s_addr s = Some a).
 Proof. exact datagram_queues_all. Qed.
 Print Assumptions C17_datagram_queues.
-Theorem C17_datagram_dispatch_partial : forall ops sd d sa data c' r, dispatch (reach ops sd) (PUI d sa data) = (c', r) ->
-  datagram_outcome (reach ops sd) d sa data c' r.
+Theorem C17_datagram_dispatch_partial : forall blk ops sd d sa data c' r, dispatch (reach blk ops sd) (PUI d sa data) = (c', r) ->
+  datagram_outcome (reach blk ops sd) d sa data c' r.
 Proof. exact datagram_dispatch_all. Qed.
 Print Assumptions C17_datagram_dispatch_partial.
-Theorem C17_datagram_sendto_partial : forall ops sd i s msg d c', get_sock (reach ops sd) i = Some s -> s_type s = TLdl ->
-  do_sendto (reach ops sd) i msg d = (c', Ok (OBool true)) ->
+Theorem C17_datagram_sendto_partial : forall blk ops sd i s msg d c', get_sock (reach blk ops sd) i = Some s -> s_type s = TLdl ->
+  do_sendto (reach blk ops sd) i msg d = (c', Ok (OBool true)) ->
   exists s' a, get_sock c' i = Some s' /\ s_addr s' = Some a /\ (s_addr s = None \/ s_addr s = Some a) /\
                s_sendq s' = s_sendq s ++ [PUI d a msg] /\ s_recvq s' = s_recvq s /\
                (s_peer s = None \/ s_peer s = Some 0 \/ s_peer s = Some d) /\ len msg <= link_miu.
 Proof. exact datagram_sendto_all. Qed.
 Print Assumptions C17_datagram_sendto_partial.
-Theorem C17_collect_head_partial : forall ops sd a miu p c', collect1 (reach ops sd) a miu = Some (p, c') ->
-  (exists i s s', In i (bound_set (reach ops sd) a) /\ get_sock (reach ops sd) i = Some s /\ s_addr s = Some a /\
+Theorem C17_collect_head_partial : forall blk ops sd a miu p c', collect1 (reach blk ops sd) a miu = Some (p, c') ->
+  (exists i s s', In i (bound_set (reach blk ops sd) a) /\ get_sock (reach blk ops sd) i = Some s /\ s_addr s = Some a /\
                   get_sock c' i = Some s' /\
                   (exists rest, s_sendq s = p :: rest /\ (s_sendq s' = rest \/ s_sendq s' = [])) /\
-                  forall k, k <> i -> get_sock c' k = get_sock (reach ops sd) k) \/
-  (exists l sl, sap_get (reach ops sd) a = Sap l (p :: sl) /\ sap_get c' a = Sap l sl /\ c_socks c' = c_socks (reach ops sd)) \/
-  (a = 1 /\ c_socks c' = c_socks (reach ops sd)).
+                  forall k, k <> i -> get_sock c' k = get_sock (reach blk ops sd) k) \/
+  (exists l sl, sap_get (reach blk ops sd) a = Sap l (p :: sl) /\ sap_get c' a = Sap l sl /\ c_socks c' = c_socks (reach blk ops sd)) \/
+  (a = 1 /\ c_socks c' = c_socks (reach blk ops sd)).
 Proof. exact collect_head_all. Qed.
 Print Assumptions C17_collect_head_partial.
 Theorem C17_link_same_pdu_partial : forall st from a miu st' p evs, step st (XXfer from a miu) = (st', Ok (OXfer (Some p) evs)) ->
@@ -178,13 +179,13 @@ Definition demo : list op :=
    XLoc SB (LSocket TLdl); XLoc SA (LSocket TLdl); XLoc SA (LBind 2 (BAddr 40));
    XLoc SB (LSendto 1 [1; 2; 3] 40); XXfer SB 33 248; XLoc SA (LRecvfrom 2)].
 Example C17_nonvacuous :
-  snd (run init_sys demo) =
+  snd (run (init_sys true) demo) =
     [Ok (OSock 0); Ok OUnit; Ok OUnit; Ok (OSock 0); Ok OPending;
      Ok (OXfer (Some (PConnect 1 32 (Some nm_a))) [EvEnq 0 (PConnect 16 32 None)]); Ok (OSock 1);
      Ok (OSock 1); Ok (OSock 2); Ok OUnit; Ok (OBool true);
      Ok (OXfer (Some (PUI 40 33 [1; 2; 3])) [EvEnq 2 (PUI 40 33 [1; 2; 3])]); Ok (ODgram [1; 2; 3] 33)] /\
-  bound_set (fst (exec demo)) 16 = [1%nat; 0%nat] /\ name_addr (fst (exec demo)) nm_a = Some 16 /\
+  bound_set (fst (exec true demo)) 16 = [1%nat; 0%nat] /\ name_addr (fst (exec true demo)) nm_a = Some 16 /\
   name_valid nm_a = true /\
-  (let c := fst (exec [XLoc SA (LSocket TLdl); XLoc SA (LBind 0 (BName nm_a))]) in
+  (let c := fst (exec false [XLoc SA (LSocket TLdl); XLoc SA (LBind 0 (BName nm_a))]) in
    bound_set c 16 = [0%nat] /\ name_addr (fst (do_close c 0)) nm_a = None /\ is_free (fst (do_close c 0)) 16 = true).
 Proof. vm_compute. repeat split. Qed.
